@@ -22,7 +22,7 @@ func c12RetryChains(c *Ctx) {
 		f = 4
 	}
 	faults := env.FaultSet{LostClose: true, WriteErr: true, AckLost: true, Silent: true, OnlyTypes: map[byte]bool{env.PUBLISH: true, env.PUBREL: true}}
-	c.Bound("retry-chain", fmt.Sprintf("BaseClient.Publish(QoS 1|2) then ErrorWithRetry.Retry on a fresh connected client, chain depth <= %d; faults %+v on every PUBLISH/PUBREL; caller context with a 5 s (virtual) deadline", f+1, faults))
+	c.Bound("retry-chain", fmt.Sprintf("BaseClient.Publish(QoS 1|2) then ErrorWithRetry.Retry on a fresh connected client, chain depth <= %d; faults %+v on every PUBLISH/PUBREL; caller context with a 5 s (virtual) deadline, for the first call alternatively one that is already cancelled", f+1, faults))
 	for _, qd := range []int{1, 2, 5, 6} {
 		qos := mqtt.QoS(qd & 3)
 		preDup := qd&4 != 0 // the caller's Message already has Dup=true
@@ -53,6 +53,9 @@ func c12RetryChains(c *Ctx) {
 				msg := &mqtt.Message{Topic: "t/m1", QoS: qos, Payload: []byte("m1"), Retain: true, Dup: preDup}
 				cli := newCli()
 				ctx, cancel := vctx.WithTimeout(vctx.Background(), 5*time.Second)
+				if vrt.Choose(vrt.KFree, 2, "first call with a live / an already cancelled context") == 1 {
+					cancel()
+				}
 				err := cli.Publish(ctx, msg)
 				cancel()
 				for d := 0; err != nil && d < f+1; d++ {
